@@ -1,0 +1,12 @@
+//go:build verif
+// +build verif
+
+package storage
+
+import "github.com/polynetwork/poly/core/store/overlaydb"
+
+// VerifWriteSet exposes the transaction-level write buffer (read-only use by the verification
+// harness: determinism and storage-confinement monitors). Build tag verif only.
+func (self *CacheDB) VerifWriteSet() *overlaydb.MemDB {
+	return self.memdb
+}
